@@ -37,7 +37,7 @@ fn fault(rng: &mut Rng, t: &mut Vec<i64>) {
 pub fn gen(rng: &mut Rng, size: usize) -> Value {
     let nsrc = rng.below(3);
     let nnm = rng.below(3);
-    let nseg = 1 + rng.below((size * 6) as u64) as usize;
+    let nseg = if rng.chance(1, 12) { 100 + rng.below(250) as usize } else { 1 + rng.below((size * 6) as u64) as usize };
     let mut text = gen_mappings(rng, nseg, nsrc, nnm, false);
     let nf = 1 + rng.below(2);
     for _ in 0..nf {
